@@ -23,4 +23,8 @@ echo "== B: patch + demo"
 cargo test --offline 2>&1 | grep -E "^test result|^test .* FAILED|^failures:|^    [a-z_:0-9]+$" | head -40
 } > "$out/confirm.log" 2>&1
 cd /; git -C /repo worktree remove --force "$wt"
-echo "confirmed $name (see $out/confirm.log)"
+# report what the log says instead of an unconditional "confirmed"
+if grep -q "APPLY-FAILED" "$out/confirm.log"; then echo "NOT CONFIRMED $name: a diff did not apply (see $out/confirm.log)"; exit 1; fi
+a=$(grep -m1 "^test result" "$out/confirm.log"); b=$(grep "^test result" "$out/confirm.log" | sed -n 2p)
+case "$a" in *"ok."*) ;; *) echo "NOT CONFIRMED $name: demo alone does not pass on the base tree: $a"; exit 1;; esac
+case "$b" in *FAILED*) echo "confirmed $name: A: $a | B: $b";; *) echo "NOT CONFIRMED $name: nothing fails with the patch: $b"; exit 1;; esac
